@@ -35,13 +35,24 @@ KEYS = {name: bytes((i * 31 + j * 7 + 11) % 256 for j in range(32)) for i, name 
 
 
 def keypath(tmp, name):
-    return core.default_keyfile() if name == "default" else os.path.join(tmp, "keys", name + ".key")
+    """the name a configuration is given for key file `name` (the sub-configuration's one is home-relative)"""
+    if name == "default":
+        return core.default_keyfile()
+    if name == "sub":
+        core.home_dir()
+        return "~/c03-keys/sub.key"
+    return os.path.join(tmp, "keys", name + ".key")
+
+
+def realpath(tmp, name):
+    return os.path.abspath(os.path.expanduser(keypath(tmp, name)))
 
 
 def write_keys(tmp):
     os.makedirs(os.path.join(tmp, "keys"), exist_ok=True)
     for name, key in KEYS.items():
-        with open(keypath(tmp, name), "wb") as fh:
+        os.makedirs(os.path.dirname(realpath(tmp, name)), exist_ok=True)
+        with open(realpath(tmp, name), "wb") as fh:
             fh.write(key)
 
 
@@ -54,6 +65,8 @@ def build(method, placement, tmp):
     s.sub.deep.s = cc.SecureField(method=method)
     ts = cc.Schema()
     ts.s = cc.SecureField(method=method)
+    # an earlier type made from the same schema under the same name, with another key file, is discarded
+    cc.make_type(ts, "CT3", key_filename=keypath(tmp, "sub2"))
     CT = cc.make_type(ts, "CT3", key_filename=keypath(tmp, "ct") if "ct" in placement else None)
     s.t = CT
     s.ls = cc.ListField(cc.SecureField(method=method))
@@ -149,7 +162,7 @@ SESSION_SCRIPT = r"""
 import json, os, sys
 sys.path.insert(0, %(repo)r)
 sys.path.insert(0, %(verif)r)
-os.environ["HOME"] = %(home)r
+os.environ["HOME"] = os.environ["VERIF_FIXED_HOME"] = %(home)r
 import cincoconfig
 cincoconfig.Config.DEFAULT_CINCOKEY_FILEPATH = os.path.join(%(home)r, ".cincokey")
 from mc.props import c03
@@ -278,7 +291,7 @@ def run_history(ctx, job, pname, hist):
 
     def keyname_of(path):
         for n in KEYS:
-            if os.path.abspath(keypath(tmp, n)) == path:
+            if realpath(tmp, n) == path:
                 return n
         return None
 
